@@ -105,3 +105,32 @@ pub fn run(ctx: &mut Ctx, toks: &[&str]) -> String {
         format!("MISMATCH shm=[{}] client=[{}]", s1, s2)
     }
 }
+
+/// C12: order of the two clock reads of `now()`.  `ord <cba fields> <delta_ns>`: every clock read
+/// after the first one sees both clocks `delta` later than the previous read did.
+/// -> <order of clock ids, R = realtime, M = monotonic> <result as for cba>
+pub fn run_ord(toks: &[&str]) -> String {
+    let t: Vec<i64> = toks.iter().map(|s| p::<i64>(s)).collect();
+    let ceb = mk_ceb(&t[0..7]);
+    let delta = t[11];
+    vclock::set_real(t[7], t[8]);
+    vclock::set_mono(t[9], t[10]);
+    let n = std::sync::Arc::new(std::sync::atomic::AtomicU64::new(0));
+    let n2 = n.clone();
+    vclock::set_hook(Some(Box::new(move |_clk| {
+        if n2.fetch_add(1, std::sync::atomic::Ordering::SeqCst) > 0 {
+            vclock::advance(delta);
+        }
+    })));
+    vclock::clear_log();
+    vclock::enable(true);
+    let r1 = std::panic::catch_unwind(|| ceb.now());
+    vclock::enable(false);
+    vclock::set_hook(None);
+    let order: String = vclock::take_log().iter().map(|(clk, _, _)| if *clk == libc::CLOCK_REALTIME { 'R' } else { 'M' }).collect();
+    let s1 = match r1 {
+        Ok(r) => fmt_shm(r),
+        Err(_) => "panic".to_string(),
+    };
+    format!("{} {}", order, s1)
+}
